@@ -22,7 +22,7 @@ func init() {
 			"C12.5 schedule constants located by use: the retransmission counter is compared with 7, incremented by one per timer firing and handed to the callback; the interval is doubled unconditionally and capped by a comparison with, and assignment of, 1.6 s; " +
 			"C12.6 Transaction.Close is called only from CloseAndDeleteAll, which is called only from Client.Close with mutexTrMap held; " +
 			"C12.7 a response whose transaction is not in the table is ignored: handleSTUNMessage returns nil on the not-found edge (the Listen loop ends on any error); " +
-			"C12.8 the message handed to the waiter is allocated for that packet and never recycled through a pool or remembered elsewhere (else the caller reads another transaction's response).",
+			"C12.8 the message handed to the waiter is allocated for (or exclusively taken from a pool by) that packet, never remembered elsewhere, and not put back into a pool on any path after a hand-over that WriteResult reported as accepted (else the caller reads another transaction's response).",
 		NotCovered: "timing, loss/duplication schedules and 'never hangs' beyond these pairing rules; the scheduler.",
 		Run:        runC12,
 	})
